@@ -52,19 +52,21 @@ fn run(args: &Args) -> i32 {
     // ---------------- stage 1 ----------------
     if stage.is_empty() || stage == "miri" {
         let tiny = seq::tiny_scenarios();
-        let cap = if reduced { args.opt_u64("exh_cap", 40) } else { args.bound("exh_cap", 500, 400_000) };
+        let cap = if reduced { args.opt_u64("exh_cap", 40) } else { args.bound("exh_cap", 6_000, 400_000) };
         let tiny: Vec<(usize, seq::Scenario)> = tiny.into_iter().enumerate().filter(|(i, _)| !reduced || i % 13 == 0).collect();
         // split every scenario's schedule tree by its first scheduler choices so the DFS uses all cores
         let depth = if reduced { 1 } else { 3 };
-        let mut jobs: Vec<(usize, seq::Scenario, Vec<usize>)> = vec![];
+        let mut jobs: Vec<(usize, seq::Scenario, Vec<usize>, std::sync::Arc<std::sync::atomic::AtomicI64>)> = vec![];
         for (k, sc) in &tiny {
+            // schedule budget shared by all subtrees of the scenario
+            let budget = std::sync::Arc::new(std::sync::atomic::AtomicI64::new(cap as i64));
             for p in seq::prefixes(sc, depth, &root) {
-                jobs.push((*k, sc.clone(), p));
+                jobs.push((*k, sc.clone(), p, budget.clone()));
             }
         }
         let per: std::sync::Mutex<std::collections::BTreeMap<usize, (u64, bool, u64)>> = Default::default();
-        vcommon::par::run(if reduced { 1 } else { args.workers }, jobs.into_iter(), |(k, sc, prefix)| {
-            let r = vcommon::par::guard(|| seq::explore_exhaustive(&sc, &prefix, cap, &rep, &root, selftest));
+        vcommon::par::run(if reduced { 1 } else { args.workers }, jobs.into_iter(), |(k, sc, prefix, budget)| {
+            let r = vcommon::par::guard(|| seq::explore_exhaustive(&sc, &prefix, &budget, &rep, &root, selftest));
             match r {
                 Ok((n, done)) => {
                     rep.count("l1_exhaustive_schedules", n);
@@ -90,7 +92,7 @@ fn run(args: &Args) -> i32 {
             }
         }
         rep.extra("exhaustive_scenarios_complete", json!(format!("{complete}/{}", tiny.len())));
-        let n_rand = if reduced { args.opt_u64("l1_random", 6) } else { args.bound("l1_random", 60_000, 2_000_000) };
+        let n_rand = if reduced { args.opt_u64("l1_random", 6) } else { args.bound("l1_random", 40_000, 2_000_000) };
         let s1 = rng.next_u64();
         vcommon::par::run(if reduced { 1 } else { args.workers }, 0..n_rand, |i| {
             if rep.violation_count() > 20 {
@@ -121,7 +123,7 @@ fn run(args: &Args) -> i32 {
 
     // ---------------- stage 3 ----------------
     if stage.is_empty() && selftest == 0 {
-        let n = args.bound("l3_histories", 1_000, 30_000);
+        let n = args.bound("l3_histories", 600, 30_000);
         let s3 = rng.next_u64();
         vcommon::par::run(args.workers, 0..n, |i| {
             if let Err(p) = vcommon::par::guard(|| seq::fault_sweep(&rep, s3, i, &root)) {
@@ -130,6 +132,9 @@ fn run(args: &Args) -> i32 {
         });
         for kind in ["quota-transient", "quota-persistent", "tempfile-creation", "disk-manager-disabled"] {
             rep.obligation(&format!("fault-injected/{kind}"), rep.get_count(&format!("l3_push_failures_injected/{kind}")) > 0, "every fault kind must have made at least one push fail");
+        }
+        for step in ["stream-header-write(new file)", "batch-message-write", "finish-at-rotation"] {
+            rep.obligation(&format!("quota-failure-step/{step}"), rep.get_count(&format!("l3_quota_failure_step/{step}")) > 0, "the quota offsets must hit every write step of push_batch");
         }
         rep.set_exhaustive(false);
     }
